@@ -582,8 +582,15 @@ class ViewParameter(AbstractParameter, ParameterListener):
 
     @tensor.setter
     def tensor(self, tensor: Tensor) -> None:
-        self.parameter.tensor[..., self.indices] = tensor
-        self.parameter.fire_parameter_changed()
+        if isinstance(self.parameter, Parameter):
+            self.parameter.tensor[..., self.indices] = tensor
+            self.parameter.fire_parameter_changed()
+        else:
+            # the viewed parameter is derived: writing into its cached tensor would not
+            # reach the parameters it is computed from
+            new_tensor = self.parameter.tensor.clone()
+            new_tensor[..., self.indices] = tensor
+            self.parameter.tensor = new_tensor
 
     @property
     def shape(self) -> torch.Size:
